@@ -161,12 +161,6 @@ def obsWantsRedirect (o : Observed) : Bool := o.fEnabled && !o.declared.noRedire
 
 def hasPlainSite (os : List Observed) (h : Bytes) : Bool := os.any fun o => o.fHost == h && o.fPort == b!"80"
 
-/-- The one situation in which the code is known to leave an HTTPS site without redirect site (finding
-C15-redirect-deferred-to-443-sibling): when redirects are made, `o` is not on the HTTPS port while another site of
-its host is, and that site produces no redirect itself (TLS off or no_redirect). -/
-def deferredTo443 (os : List Observed) (o : Observed) : Bool :=
-  o.ePort != b!"443" && os.any fun p => p.fHost == o.fHost && p.ePort == b!"443" && !obsWantsRedirect p
-
 /-! the single violations, as tests on one observed site / one observed redirect site -/
 
 /-- P1 violated: in scope, and managed ≠ qualifies -/
@@ -201,11 +195,8 @@ def sitesVerdict (os : List Observed) (rs : List ObservedRedirect) : String :=
     then "bad:redirect-target-not-https-site:a synthesised redirect does not point at an HTTPS site of its host (right port, TLS on, no_redirect off)"
   else if !(rs.map (·.fHost)).Nodup then "bad:duplicate-redirect-site:"
   -- P4 every HTTPS site (no_redirect off) without a plain site of its host on the HTTP port is covered by a redirect site
-  else match os.find? (offCover os rs) with
-    | some o =>
-      if deferredTo443 os o then "bad:redirect-missing-443-sibling:an HTTPS site has no redirect site because a site of the same host on port 443 (which produces no redirect itself) is preferred"
-      else "bad:redirect-missing:an HTTPS site without plaintext site on the HTTP port has no redirect site"
-    | none => "ok"
+  else if os.any (offCover os rs) then "bad:redirect-missing:an HTTPS site without plaintext site on the HTTP port has no redirect site"
+  else "ok"
 
 /-- what the model pipeline shows of a declared site `d` (the same fields the stream c15.sites reports) -/
 def observeSite (d : Site) : Observed :=
